@@ -60,7 +60,8 @@ Day(y, m, d) == DaysFromCivil(y, m, d)
 Years(y1, y2, F(_)) == [i \in 1..(2 * (y2 - y1 + 1)) |-> F(y1 + ((i - 1) \div 2))[((i - 1) % 2) + 1]]
 Seg(zone, y1, y2, init, tr) ==
   [zone |-> zone, y1 |-> y1, y2 |-> y2, lo |-> Utc(y1, 1, 1, 0), hi |-> Utc(y2 + 1, 1, 1, 0),
-   init |-> Tr(Utc(y1, 1, 1, 0), init), tr |-> tr]
+   init |-> Tr(Utc(y1, 1, 1, 0), init), tr |-> tr,
+   offs |-> {init.off} \cup {tr[i].off : i \in 1..Len(tr)}]           \* every offset the zone has in the segment
 
 (***************************************************************************)
 (* 2. The table.                                                            *)
@@ -181,6 +182,9 @@ ZoneNames == <<"Asia/Tokyo", "Asia/Kolkata", "Asia/Kathmandu", "Asia/Hong_Kong",
                "Australia/Lord_Howe", "Pacific/Apia">>
 \* abbreviations that are numbers, not names (the database gives no name to these states)
 NumericAbbrs == {"+0530", "+0545", "+03", "-03", "-02", "+1030", "+11", "-11", "-10", "+13", "+14"}
+\* a class name, only used to describe a finding (TLA+ strings cannot be measured)
+NameClass(abbr) == IF abbr \in NumericAbbrs THEN "numeric"
+                   ELSE IF abbr \in {"AHST", "AHDT", "AKST", "AKDT", "HKST", "EEST", "AEST", "AEDT"} THEN "four-letter" ELSE "three-letter"
 
 (***************************************************************************)
 (* 3. Lookup.  The state in force at t is that of the last transition not   *)
@@ -202,7 +206,7 @@ Offset(sg, t) == StateIn(sg, t).off
 Local(sg, t) == Plus(t, Offset(sg, t))          \* the local civil time, as an "instant" of the GMT calendar
 \* the state before transition i
 Before(sg, i) == IF i = 1 THEN sg.init ELSE sg.tr[i - 1]
-OffsetsOf(sg) == {sg.init.off} \cup {sg.tr[i].off : i \in 1..Len(sg.tr)}
+OffsetsOf(sg) == sg.offs
 \* the instants whose local time is L: the inverse image of Local (L - o for an offset o of the zone, if o is in force then)
 Candidates(sg, L) == {t \in {Plus(L, -o) : o \in OffsetsOf(sg)} : InSeg(sg, t) /\ Local(sg, t) = L}
 \* which segment of the table speaks about zone z at instant t
